@@ -124,7 +124,7 @@ CHECKS = {
     },
     "C11": {
         "text": "Explicit-state breadth-first search over operation histories {write source, add_named_file, remove, new instance} (13 operations, "
-        "2 names x 2 source files x 3 contents) to depth 5 (thorough 7) on the real FileManager, models/refstore.Files stepped in "
+        "2 names x 2 source files x 3 contents) to depth 5 (thorough 8) on the real FileManager, models/refstore.Files stepped in "
         "lock-step; all store invariants of the statement are evaluated after every operation and from a fresh instance; "
         "canonical states (model + masked tree) de-duplicated.",
         "design": "3 / C11",
